@@ -814,3 +814,13 @@ Lemma shutdown_close_must_unregister :
   find current_variant redis_backend (run current_variant redis_backend 300000 init (shutdown_history true)) 2 7 = Absent /\
   find current_variant redis_backend (run current_variant redis_backend 300000 init (shutdown_history false)) 2 7 = Found 1 10.
 Proof. split; vm_compute; reflexivity. Qed.
+
+(* a lifetime with a fractional-second part: heartbeats every 2.2 s keep a 2.5 s registration alive, for any number of periods
+   (the renewal must carry the WHOLE ttl; a renewal that keeps only its whole seconds — seeded C08-25 — is kept 2000, which fails) *)
+Lemma fractional_lifetime_kept n c k :
+  kept 2500 n c (beats n c 2200 k) 0 = true /\ kept 2000 n c (beats n c 2200 1) 0 = false.
+Proof.
+  split; [apply kept_beats; lia|].
+  cbn [beats kept]. rewrite !N.eqb_refl. cbn [andb].
+  assert (H : (0 + 2200 <? 2000) = false) by (vm_compute; reflexivity). rewrite H. reflexivity.
+Qed.
